@@ -605,6 +605,17 @@ def assemble_item(d, info, src, srcfile_label, log):
                         f" match iter__{k_}.next() {{ None => {{ break; }} Some({pat}) => {{", "DESUGAR_FOR_NEXT", prio=-1)
                     add(lp["body_close"], lp["body_close"], " } } ", "DESUGAR_FOR_NEXT")
                     add(lp["body_close"] + 1, lp["body_close"] + 1, " }", "DESUGAR_FOR_NEXT", prio=-2)
+            elif o == "desugar(async_m)":
+                # DESUGAR_ASYNC, second form: `async` is removed and every `.await` becomes a call `.await_m()` of a prelude
+                # model of the awaited value. The model decides what waiting means: a bare future has
+                # `await_m() requires false` (waiting without a bound), a future wrapped in `timeout(..)` returns its value
+                # or Elapsed. "Every wait of this function is bounded" then is a proof obligation at each await point.
+                m_ = re.search(rb"\basync\s+(?=(unsafe\s+)?fn\b)", src[start:bo])
+                if not m_:
+                    continue
+                add(start + m_.start(), start + m_.end(), "", "DESUGAR_ASYNC")
+                for m_ in re.finditer(rb"\.\s*await\b", src[bo:bc]):
+                    add(bo + m_.start(), bo + m_.end(), ".await_m()", "DESUGAR_ASYNC")
             elif o == "desugar(async)":
                 # `async fn f(..) { .. g(..).await .. }` -> `fn f(..) { .. g(..) .. }` (DESUGAR_ASYNC): the body of an async
                 # function whose awaited callees are prelude models runs to completion like sequential code as far as its
